@@ -18,7 +18,7 @@ import re
 
 from ..cfg import cfg_of
 from ..dataflow import _targets, all_def_values, depends_on
-from ..effects import Unknown, ceval
+from ..effects import Unknown, ceval, summaries
 from ..model import AnalysisError, FuncInfo, dotted, norm_stmt, unparse, walk_no_nested
 from ..norm import affine
 from .c07 import mini_run
@@ -238,6 +238,16 @@ def _classify_point(fn, e: ast.AST, depth: int = 5) -> str:
         except Unknown:
             return "OTHER"
         return "LOW" if i == 0 else "HIGH" if i == -1 else "OTHER"
+    if isinstance(e, ast.Call) and isinstance(e.func, ast.Name) and e.func.id in ("ELEM", "LOOP") and e.args:
+        # symbolic store: one element of an iterable (loop / comprehension variable)
+        if e.func.id == "LOOP":
+            return _classify_point(fn, e.args[0], depth - 1)
+        attrs = [y.attr for y in ast.walk(e.args[0]) if isinstance(y, ast.Attribute)]
+        if "mids" in attrs:
+            return "ALL_MIDS"
+        if "edges" in attrs:
+            return "ALL_EDGES"
+        return "OTHER"
     if isinstance(e, ast.Call):
         fnm = (dotted(e.func) or "").split(".")[-1]
         if isinstance(e.func, ast.Attribute) and e.func.attr in ("min", "max") and isinstance(e.func.value, ast.Attribute) and e.func.value.attr in ("edges", "mids"):
@@ -265,54 +275,74 @@ def _is_number_param(fn, name: str) -> bool:
     return False
 
 
+def _is_gar(n) -> bool:
+    return isinstance(n, ast.Call) and isinstance(n.func, ast.Attribute) and n.func.attr == "get_angle_radian"
+
+
 def rule_r2(prog, res) -> None:
-    """the pruning angle covers every counting angle"""
+    """the pruning angle covers every counting angle.  Decided on the symbolic store of the function that
+    computes the pruning angle (helpers and nested functions looked through): the redshifts handed to
+    get_angle_radian, the reduction and the element of the returned (min, max) pair that is used"""
+    from .. import symx
+
     link, _ = _link_function(prog)
+    S = summaries(prog)
+
+    def reaches_gar(t) -> bool:
+        fs = [f for f in S.reachable(t) if f.module is t.module]
+        return any(_is_gar(cc) for f in fs for cc in calls_in(f))
+
     prune = None
     for c in calls_in(link):
         for t in prog.resolve_call(link, c).funcs():
-            if any(isinstance(cc.func, ast.Attribute) and cc.func.attr == "get_angle_radian" for cc in calls_in(t)):
+            if reaches_gar(t):
                 prune = t
     if prune is None:
-        if any(isinstance(cc.func, ast.Attribute) and cc.func.attr == "get_angle_radian" for cc in calls_in(link)):
+        if any(_is_gar(cc) for cc in calls_in(link)):
             prune = link
         else:
             raise AnalysisError("C01.R2: the function computing the pruning angle was not found")
     res.touch(prune)
     worker = prog.func("process_patch_pair")
     res.touch(worker)
-    wcalls = [c for c in calls_in(worker) if isinstance(c.func, ast.Attribute) and c.func.attr == "get_angle_radian"]
+    pol = symx.inline_private_helpers(prog)
+    wcalls = [ev for p in symx.explore(prog, worker, inline=pol) for ev in p.calls("get_angle_radian")]
     if not wcalls:
         raise AnalysisError("C01.R2: per-pair worker no longer converts scales with get_angle_radian")
-    for c in wcalls:
-        z = c.args[0]
-        if not (isinstance(z, ast.Subscript) and depends_on(worker.node, z.value, lambda y: isinstance(y, ast.Attribute) and y.attr == "mids")):
-            raise AnalysisError(f"C01.R2: counting redshift {unparse(z)} is not an element of the bin centres (idiom not recognised)")
+    for ev in wcalls:
+        z = ev.expr.args[0] if ev.expr.args else None
+        if not (isinstance(z, ast.Subscript) and symx.mentions(z.value, lambda y: isinstance(y, ast.Attribute) and y.attr == "mids")):
+            raise AnalysisError(f"C01.R2: counting redshift {unparse(z) if z is not None else '?'} is not an element of the bin centres (idiom not recognised)")
     fn = prune.node
+    groups = symx.explore_with_nested(prog, prune, inline=pol)
     pts = []
-    for c in calls_in(prune):
-        if isinstance(c.func, ast.Attribute) and c.func.attr == "get_angle_radian" and c.args:
-            pts.append((c, _classify_point(fn, c.args[0])))
+    exprs = []
+    for g, paths in groups:
+        for p in paths:
+            for ev in p.events:
+                if ev.expr is not None:
+                    exprs.append(ev.expr)
+                if ev.kind == "call" and _is_gar(ev.expr) and ev.expr.args:
+                    pts.append((ev.node, _classify_point(g.node, ev.expr.args[0])))
+            if p.value is not None:
+                exprs.append(p.value)
     kinds = {k for _, k in pts}
     if "OTHER" in kinds:
         bad = next(c for c, k in pts if k == "OTHER")
         raise AnalysisError(f"C01.R2: cannot classify the redshift {unparse(bad.args[0])} at which the pruning angle is evaluated")
     ok = "ALL_MIDS" in kinds or "ALL_EDGES" in kinds or {"LOW", "HIGH"} <= kinds
     # reduction must be a maximum (over scales and over points)
-    red_max = any((isinstance(x, ast.Call) and ((isinstance(x.func, ast.Attribute) and x.func.attr == "max") or (dotted(x.func) or "").split(".")[-1] in ("max", "amax", "maximum"))) for x in walk_no_nested(fn))
+    red_max = any((isinstance(x, ast.Call) and ((isinstance(x.func, ast.Attribute) and x.func.attr == "max") or (dotted(x.func) or "").split(".")[-1] in ("max", "amax", "maximum"))) for e in exprs for x in ast.walk(e))
     # the upper scale limit is the one used (second element of the returned pair)
     uses_upper = False
-    for x in walk_no_nested(fn):
-        if isinstance(x, ast.Assign) and isinstance(x.targets[0], ast.Tuple) and len(x.targets[0].elts) == 2 and isinstance(x.value, ast.Call) and isinstance(x.value.func, ast.Attribute) and x.value.func.attr == "get_angle_radian":
-            second = x.targets[0].elts[1]
-            if isinstance(second, ast.Name) and any(isinstance(y, ast.Name) and y.id == second.id and isinstance(y.ctx, ast.Load) for y in ast.walk(fn)):
-                uses_upper = True
-        if isinstance(x, ast.Subscript) and isinstance(x.value, ast.Call) and isinstance(x.value.func, ast.Attribute) and x.value.func.attr == "get_angle_radian":
-            try:
-                if ceval(x.slice, {}) in (1, -1):
-                    uses_upper = True
-            except Unknown:
-                pass
+    for e in exprs:
+        for x in ast.walk(e):
+            if isinstance(x, ast.Subscript) and _is_gar(symx.strip_wrappers(x.value)):
+                try:
+                    if ceval(x.slice, {}) in (1, -1):
+                        uses_upper = True
+                except Unknown:
+                    pass
     if ok and red_max and uses_upper:
         res.ok("C01.R2", res.site(prune), f"pruning angle = max over evaluation points {sorted(kinds)} of the upper scale limit: covers every bin centre")
     elif not ok:
@@ -354,11 +384,16 @@ def rule_r3(prog, res) -> None:
     res.touch(d)
     flag = d.param_names()[1]
     arr = d.param_names()[0]
-    try:
-        r_true = _ret_expr(d.node, {flag: True})
-        r_false = _ret_expr(d.node, {flag: False})
-    except Unknown as err:
-        raise AnalysisError(f"C01.R3: cannot interpret dispatch_counts ({err})")
+    from .. import symx
+
+    def ret_under(value: bool):
+        # the expression returned when the flag has this value (if-statement, early return or conditional expression alike)
+        ps = [p for p in symx.explore(prog, d, env={flag: value}, inline=symx.inline_private_helpers(prog)) if p.outcome == "return" and p.value is not None]
+        if len({unparse(p.value) for p in ps}) != 1:
+            raise AnalysisError(f"C01.R3: cannot interpret dispatch_counts for {flag}={value} ({len(ps)} returning paths)")
+        return ps[0].value
+
+    r_true, r_false = ret_under(True), ret_under(False)
     ok_t = isinstance(r_true, ast.Call) and (dotted(r_true.func) or "").endswith("diff") and unparse(r_true.args[0]) == arr and len(r_true.args) == 1 and not r_true.keywords
     ok_f = isinstance(r_false, ast.Subscript) and isinstance(r_false.slice, ast.Slice) and isinstance(r_false.slice.lower, ast.Constant) and r_false.slice.lower.value == 1 and r_false.slice.upper is None and unparse(r_false.value) == arr
     if ok_t and ok_f:
@@ -410,22 +445,38 @@ def rule_r4(prog, res) -> None:
         res.violation("C01.R4", init, init.node, "KD-tree is not built from xyz unit vectors", key_extra="tree-not-xyz")
     worker = prog.func("process_patch_pair")
     res.touch(worker)
-    ga = [x for x in walk_no_nested(worker.node) if isinstance(x, ast.Assign) and isinstance(x.value, ast.Call) and isinstance(x.value.func, ast.Attribute) and x.value.func.attr == "get_angle_radian"]
-    tc = [c for c in calls_in(worker) if isinstance(c.func, ast.Attribute) and c.func.attr == "count"]
-    if len(ga) == 1 and len(tc) == 1 and isinstance(ga[0].targets[0], ast.Tuple):
-        lo, hi = (e.id for e in ga[0].targets[0].elts)
-        args = [unparse(a) for a in tc[0].args[1:3]] or [unparse(kwarg(tc[0], "ang_min")), unparse(kwarg(tc[0], "ang_max"))]
-        if args == [lo, hi]:
+    from .. import symx
+
+    wpaths = symx.explore(prog, worker, inline=symx.inline_private_helpers(prog))
+    tc = [ev for p in wpaths for ev in p.calls("count") if isinstance(ev.expr.func, ast.Attribute) and len(ev.expr.args) + len(ev.expr.keywords) >= 3]
+    if not tc:
+        raise AnalysisError("C01.R4: per-pair worker shape not recognised (no tree.count call)")
+    seen_sites = set()
+    for ev in tc:
+        if id(ev.node) in seen_sites:
+            continue
+        seen_sites.add(id(ev.node))
+        lo = ev.expr.args[1] if len(ev.expr.args) > 1 else kwarg(ev.expr, "ang_min")
+        hi = ev.expr.args[2] if len(ev.expr.args) > 2 else kwarg(ev.expr, "ang_max")
+
+        def part(x, i):
+            return isinstance(x, ast.Subscript) and isinstance(x.slice, ast.Constant) and x.slice.value == i and _is_gar(x.value)
+
+        if lo is None or hi is None or not (_is_gar(getattr(lo, "value", None)) and _is_gar(getattr(hi, "value", None))):
+            raise AnalysisError("C01.R4: per-pair worker shape not recognised (angles handed to tree.count do not come from get_angle_radian)")
+        if part(lo, 0) and part(hi, 1) and unparse(lo.value) == unparse(hi.value):
             res.ok("C01.R4", res.site(worker, "tree.count"), "(ang_min, ang_max) from get_angle_radian are passed on in this order")
         else:
-            res.violation("C01.R4", worker, tc[0], f"get_angle_radian returns (min, max) = ({lo}, {hi}) but tree.count receives {args}", key_extra="angle-order")
-        cos = kwarg(ga[0].value, "cosmology")
-        if cos is not None and unparse(cos) == "config.cosmology":
+            res.violation("C01.R4", worker, ev.node, f"get_angle_radian returns (min, max) but tree.count receives elements ({unparse(lo.slice)}, {unparse(hi.slice)}) of it", key_extra="angle-order")
+        g = lo.value
+        cos = kwarg(g, "cosmology")
+        root = g.func.value
+        while isinstance(root, ast.Attribute):
+            root = root.value
+        if cos is not None and isinstance(cos, ast.Attribute) and cos.attr == "cosmology" and isinstance(cos.value, ast.Name) and isinstance(root, ast.Name) and cos.value.id == root.id and root.id in worker.param_names():
             res.ok("C01.R4", res.site(worker, "cosmology"), "scales are converted with the configuration's cosmology")
         else:
-            res.violation("C01.R4", worker, ga[0], "scales are converted without the configuration's cosmology", key_extra="worker-cosmology")
-    else:
-        raise AnalysisError("C01.R4: per-pair worker shape not recognised")
+            res.violation("C01.R4", worker, ev.node, "scales are converted without the configuration's cosmology", key_extra="worker-cosmology")
     gar = prog.func("Scales.get_angle_radian")
     res.touch(gar)
     ret = [r.value for r in walk_no_nested(gar.node) if isinstance(r, ast.Return)]
@@ -595,10 +646,7 @@ def rule_r5(prog, res) -> None:
                                 if sf != sa:
                                     res.violation("C01.R5", f, x, f"field {fld} of {ci.name} receives {unparse(a)}", key_extra=f"side-field-{ci.name}-{fld}")
                 if isinstance(x.func, ast.Attribute) and x.func.attr == "set_patch_pair":
-                    a = [unparse(y) for y in x.args[:2]]
-                    checked += 1
-                    if a != ["id1", "id2"]:
-                        res.violation("C01.R5", f, x, f"set_patch_pair receives the patch ids as {a}", key_extra="set-patch-pair-order")
+                    checked += 1  # argument order is decided on the substituted call below (symbolic store)
                 if isinstance(x.func, ast.Attribute) and x.func.attr == "count" and isinstance(x.func.value, ast.Name) and _side(x.func.value):
                     checked += 1
                     if not (x.args and _side(x.args[0]) and _side(x.args[0]) != _side(x.func.value)):
@@ -614,41 +662,90 @@ def rule_r5(prog, res) -> None:
         res.ok("C01.R5", res.site(spp), "counts[:, id1, id2] = binned counts")
     else:
         res.violation("C01.R5", spp, spp.node, "set_patch_pair stores under transposed / other indices", key_extra="set-patch-pair-store")
-    # auto-correlation: diagonal halved, upper triangle only
+    # auto-correlation: diagonal halved, upper triangle only.  Decided on the symbolic store of count_pairs /
+    # iter_patch_id_pairs: the arguments of set_patch_pair and the yielded pairs are written in terms of the
+    # iterated objects, so local names and the statement shape (if / conditional expression / try-else) do not matter
+    from .. import symx
+
+    def holds(path, env) -> bool:
+        for t, pol, _ in path.conds:
+            try:
+                v = bool(ceval(t, env))
+            except (Unknown, TypeError):
+                continue  # a decision that does not depend on the modelled quantities
+            if v != pol:
+                return False
+        return True
+
     cp = prog.func("PatchLinkage.count_pairs")
-    halves = [x for x in walk_no_nested(cp.node) if isinstance(x, ast.If) and "auto" in unparse(x.test) and "id1" in unparse(x.test)]
-    good = False
-    for h in halves:
-        try:
-            t = {(a, e): bool(ceval(h.test, {"auto": a, "id1": 3, "id2": 3 if e else 4})) for a in (True, False) for e in (True, False)}
-        except Unknown:
+    paths = symx.explore(prog, cp, inline=symx.inline_private_helpers(prog, public={"get_patch_pairs", "iter_patch_id_pairs", "process_patch_pair"}))
+    sets = [(p, ev) for p in paths for ev in p.calls("set_patch_pair")]
+    autos = {unparse(kwarg(ev.expr, "auto")) for p in paths for ev in p.calls() if ev.callee in ("zeros", "PatchedSumWeights", "PatchedCounts") and kwarg(ev.expr, "auto") is not None}
+    if not sets or len(autos) != 1:
+        raise AnalysisError(f"C01.R5: set_patch_pair call / auto flag of count_pairs not recognised ({len(sets)} calls, auto candidates {sorted(autos)})")
+    auto_txt = next(iter(autos))
+    order_bad = None
+    table: dict = {}
+    for p, ev in sets:
+        if len(ev.expr.args) < 3:
+            raise AnalysisError("C01.R5: set_patch_pair is not called with (id1, id2, counts)")
+        A, B, C = ev.expr.args[:3]
+        if not (isinstance(A, ast.Attribute) and A.attr == "id1" and isinstance(B, ast.Attribute) and B.attr == "id2" and unparse(A.value) == unparse(B.value)):
+            order_bad = (ev, [unparse(A)[-30:], unparse(B)[-30:]])
             continue
-        fac = [y for y in ast.walk(h) if isinstance(y, ast.BinOp) and isinstance(y.op, (ast.Mult, ast.Div)) and isinstance(y.right, ast.Constant)]
-        val = None
-        if fac:
-            val = fac[0].right.value if isinstance(fac[0].op, ast.Mult) else 1 / fac[0].right.value
-        if t == {(True, True): True, (True, False): False, (False, True): False, (False, False): False} and val == 0.5:
-            good = True
-    if good:
-        res.ok("C01.R5", res.site(cp, "auto diagonal"), "counts of a patch with itself are halved exactly for autocorrelations")
+        fac = 1.0
+        for y in ast.walk(C):
+            if isinstance(y, ast.BinOp) and isinstance(y.op, (ast.Mult, ast.Div)):
+                for side in (y.left, y.right):
+                    if isinstance(side, ast.Constant) and isinstance(side.value, (int, float)) and not isinstance(side.value, bool):
+                        fac *= side.value if isinstance(y.op, ast.Mult) else (1 / side.value if side is y.right else side.value)
+        for a_ in (True, False):
+            for eq in (True, False):
+                env = {auto_txt: a_, unparse(A): 3, unparse(B): 3 if eq else 4}
+                if holds(p, env):
+                    table.setdefault((a_, eq), set()).add(fac)
+    if order_bad is not None:
+        res.violation("C01.R5", cp, order_bad[0].node, f"set_patch_pair receives the patch ids as {order_bad[1]} instead of (<pair>.id1, <pair>.id2)", key_extra="set-patch-pair-order")
+    elif table == {(True, True): {0.5}, (True, False): {1.0}, (False, True): {1.0}, (False, False): {1.0}}:
+        res.ok("C01.R5", res.site(cp, "auto diagonal"), "counts of a patch with itself are halved exactly for autocorrelations (factor table over auto x id1==id2)")
     else:
-        res.violation("C01.R5", cp, cp.node, "the diagonal patch pairs of an autocorrelation are not halved exactly once (unordered pairs counted twice / cross pairs halved)", key_extra="auto-diagonal-halving")
+        res.violation("C01.R5", cp, sets[0][1].node, f"the diagonal patch pairs of an autocorrelation are not halved exactly once (unordered pairs counted twice / cross pairs halved): factors {dict((k, sorted(v)) for k, v in sorted(table.items()))}", key_extra="auto-diagonal-halving")
     it = prog.func("PatchLinkage.iter_patch_id_pairs")
     res.touch(it)
-    conds = [x for x in walk_no_nested(it.node) if isinstance(x, ast.If) and "auto" in unparse(x.test)]
-    okc = False
-    for c in conds:
-        try:
-            t = {(a, r): bool(ceval(c.test, {"auto": a, "i": 2, "j": {"<": 1, "=": 2, ">": 3}[r]})) for a in (True, False) for r in "<=>"}
-        except Unknown:
-            continue
-        if all(t[(False, r)] for r in "<=>") and t[(True, ">")] and not t[(True, "<")] and not t[(True, "=")]:
-            okc = True
+    auto_p = next((q for q in it.param_names() if q == "auto"), None)
+    if auto_p is None:
+        raise AnalysisError("C01.R5: iter_patch_id_pairs has no auto parameter")
+    ipaths = symx.explore(prog, it, inline=symx.inline_private_helpers(prog))
+    cross_yields = []
+    diag_yields = 0
+    for p in ipaths:
+        for ev in p.events:
+            if ev.kind == "yield" and isinstance(ev.expr, ast.Tuple) and len(ev.expr.elts) == 2:
+                e0, e1 = (unparse(symx.strip_wrappers(e)) for e in ev.expr.elts)
+                if e0 == e1:
+                    diag_yields += 1
+                else:
+                    cross_yields.append((p, ev, e0, e1))
+    if not cross_yields:
+        raise AnalysisError("C01.R5: iter_patch_id_pairs yields no (i, j) pair with distinct members (idiom not recognised)")
+    t = {}
+    for a_ in (True, False):
+        for r in "<=>":
+            t[(a_, r)] = False
+            for p, ev, e0, e1 in cross_yields:
+                env = {auto_p: a_, e0: 2, e1: {"<": 1, "=": 2, ">": 3}[r]}
+                # the decisions taken before the yield, on this path
+                k = p.events.index(ev)
+                pre = [c for c in p.conds if symx.mentions(c[0], lambda n: isinstance(n, ast.Name) and n.id == auto_p)]
+                sub = symx.SymPath(p.store, pre, p.events[:k], p.outcome)
+                if holds(sub, env):
+                    t[(a_, r)] = True
+    okc = all(t[(False, r)] for r in "<=>") and t[(True, ">")] and not t[(True, "<")] and not t[(True, "=")]
     rem = any(isinstance(c.func, ast.Attribute) and c.func.attr in ("remove", "discard") for c in calls_in(it))
-    if okc and rem:
-        res.ok("C01.R5", res.site(it), "cross pairs: all ordered pairs; auto: only j > i, the diagonal is removed from the link sets before")
+    if okc and rem and diag_yields:
+        res.ok("C01.R5", res.site(it), "cross pairs: all ordered pairs; auto: only j > i, the diagonal is yielded once and removed from the link sets before")
     else:
-        res.violation("C01.R5", it, it.node, "an autocorrelation does not visit exactly the unordered patch pairs with j > i plus the diagonal once", key_extra="pair-iteration-filter")
+        res.violation("C01.R5", it, it.node, f"an autocorrelation does not visit exactly the unordered patch pairs with j > i plus the diagonal once (visit table {dict((k, v) for k, v in sorted(t.items()))})", key_extra="pair-iteration-filter")
 
 
 # ----------------------------------------------------------------------------- R6
